@@ -75,8 +75,12 @@ def table_facts(members):
     for name, data in members:
         if not name.endswith(".iwa"):
             continue
-        S, _, _ = iwa.stream_of(data)
-        for seg in iwa.parse_segments(S):
+        try:
+            S, _, _ = iwa.stream_of(data)
+            segs = iwa.parse_segments(S)
+        except (iwa.FormatError, IndexError):
+            continue  # an opaque member with an .iwa name (issue-32 has one)
+        for seg in segs:
             if seg["infos"] and seg["infos"][0][0] in types and types[seg["infos"][0][0]][0] == "table":
                 obj = types[seg["infos"][0][0]][1].FromString(seg["messages"][0])
                 bds = obj.base_data_store
